@@ -20,6 +20,7 @@ EXPLANATION = (
     'linearizability are NOT decided.')
 EXPLANATION += ' Added after the seeded-change rounds: ' + 'D4: after internal_insert / internal_insert_node the rejected node is disposed of at most once on every path.'
 EXPLANATION += ' Added in the third session (round-3 seeds and the findings they led to): ' + 'D5: every value written to the bucket count is a power of two by construction (one-bit abstract domain; doublings only where the doubled value is bounded from above).'
+EXPLANATION += ' Added in the fourth round of seeded changes: ' + 'D6: functor take-over - in a function that replaces my_compare no element is linked before the replacement; every function that copies nodes together with their order keys has taken my_hash_compare from the same source on every path (helpers pass the obligation to their callers; constructors and assignment operators never do).'
 ASSUMPTIONS = ['instantiations: unordered/ordered map, multimap, set, multiset over int (explicit instantiation)']
 ND = ['traversal completeness under concurrent inserts', 'comparator order of iteration', 'linearizability']
 UB = None
